@@ -373,7 +373,7 @@ H("conn_kill_native", ["C08"], "replay-only", "connection::kill_native",
   [("state", "u8")], 4, [], ["Connection::kill"], "native replay body of E2 query e2_kill")
 H("conn_update_rem_cid_native", ["C09"], "replay-only", "connection::update_rem_cid_native",
   [("have_next", "bool")], 4, [], ["Connection::update_rem_cid"], "native replay body of E2 query e2_update_rem_cid")
-H("conn_set_peer_params_native", ["C05", "C06", "C13", "C08"], "replay-only", "connection::set_peer_params_native",
+H("conn_set_peer_params_native", ["C05", "C06", "C13", "C08", "C03"], "replay-only", "connection::set_peer_params_native",
   [("mups", "u32")], 4, [], ["Connection::set_peer_params"], "native replay body of E2 query e2_set_peer_params")
 H("streams_received_ack_of_native", ["C05"], "replay-only", "connection::streams::received_ack_of_native",
   [("reset", "bool")], 4, [], ["StreamsState::received_ack_of"], "native replay body of E2 query e2_received_ack_of")
